@@ -106,7 +106,7 @@ func (p Parameters) GenEvaluationKeys(skN1 *rlwe.SecretKey) (btpkeys *Evaluation
 	EvkDenseToSparse, EvkSparseToDense := p.genEncapsulationEvaluationKeysNew(skN2)
 
 	rlk := kgen.GenRelinearizationKeyNew(skN2)
-	gks := kgen.GenGaloisKeysNew(append(p.GaloisElements(paramsN2), paramsN2.GaloisElementForComplexConjugation()), skN2)
+	gks := kgen.GenGaloisKeysNew(p.GaloisElements(paramsN2), skN2)
 
 	return &EvaluationKeys{
 		EvkN1ToN2:           EvkN1ToN2,
